@@ -324,7 +324,9 @@ class Check:
               'coverage': cov, 'assumptions': self.assumptions, 'wall_s': round(wall, 2),
               'violations': len(self.violations),
               'known_findings': [k['what'] for k, _ in self.known]}
-        json.dump(ev, open(os.path.join(EVID, self.pid + '.json'), 'w'), indent=1, default=str)
+        evdir = os.path.join(BUILD, 'evidence-scratch') if os.environ.get('VERIF_NO_EVIDENCE') else EVID
+        os.makedirs(evdir, exist_ok=True)
+        json.dump(ev, open(os.path.join(evdir, self.pid + '.json'), 'w'), indent=1, default=str)
         for k, what in self.known:
             print('KNOWN-FINDING: property=%s %s' % (self.pid, k['what']))
         if self.violations:
@@ -353,3 +355,30 @@ def cleanup_all():
             os.unlink(v)
         except OSError:
             pass
+
+
+def absorb(c, res, traces_key=None):
+    """Fold a harness result document into the check."""
+    c.evaluations += res.get('evaluations', 0)
+    c.distinct += res.get('distinct', 0)
+    c.traces += res.get('traces', 0)
+    hc = c.extra.setdefault('harness_counters', {})
+    for k, v in res.get('counters', {}).items():
+        hc[k] = hc.get(k, 0) + v
+    for s in res.get('samples', []):
+        c.sample(s)
+    for m in res.get('mismatches', []):
+        c.violation(m['what'], m['case'], m.get('sig') or {})
+    if res.get('sig_counts'):
+        c.extra.setdefault('mismatch_signatures', {}).update(res['sig_counts'])
+
+
+def table_check(c, module, cfg, cmd, workers=8, tlc_timeout=900, harness_timeout=3000, args=(), race=False):
+    r = tlc_must_pass(module, cfg, workers=workers, timeout=tlc_timeout, keep=True)
+    c.add_tlc(cfg, r)
+    try:
+        res = run_harness([cmd, r.dir, c.tier] + list(args), timeout=harness_timeout, race=race)
+    finally:
+        cleanup(r)
+    absorb(c, res)
+    return res
